@@ -79,6 +79,7 @@ type FnCtx struct {
 	pkgInfo   *types.Info
 	modSet    map[string]bool
 	callees   map[string]bool
+	freshWrite bool
 }
 
 func (fx *FnCtx) declare(name, sort string) {
@@ -647,6 +648,7 @@ func (fx *FnCtx) generate() {
 		}
 	}
 	fx.entry = entry
+	fx.globalInitFacts()
 	// global facts
 	for _, g := range P.globals {
 		if g.Pkg != fn.Pkg.Pkg.Path() {
